@@ -10,6 +10,11 @@ CHECKS = {
    text="Runtime monitoring of the real `gleece generate spec` child process on 80 (thorough 800) generated projects x 2 OpenAPI versions: controllers spread over files and packages, shared and parameterised prefixes, doubled/trailing/missing slashes, same path on several verbs, hidden/deprecated/non-endpoint methods, same-named controllers in different packages. The oracle is the descriptor the project was rendered from (verb, normalised path, operationId, tag, deprecation), read with our own JSON reader. Exploration over generated projects only.",
    note="Trusts the renderer writing what the descriptor says and the path normal form of DESIGN A.1; projects gleece rejects are counted as vacuous (acceptance floor 50%).",
    ref="DESIGN.md §5 C01"),
+ "C04": dict(
+   technique="three-way relational monitor per route: descriptor-derived effective security vs operation.security in both emitted specs vs the SecurityCheckList literal parsed from the generated routes file; exit status/files vs enforce flag and undeclared-scheme plants",
+   text="Runtime monitoring of the real CLI (`generate spec-and-routes`) on 72 (thorough 700) generated projects x 2 versions covering the 3-level inheritance x multiplicity x scopes space, hidden routes, enforceSecurityOnAllRoutes on/off and undeclared schemes planted at method / hidden method / controller / default level. ~400 routes per quick run are compared across the three artifacts; the enforce flag's accept/reject outcome is predicted from the descriptor. Exploration only; the dynamic half (what the router really enforces at request time) is C03's monitor.",
+   note="Enforced list is read statically from the gin routes file with go/parser; descriptor inheritance rule = DESIGN A.2.",
+   ref="DESIGN.md §5 C04"),
  "C06": dict(
    technique="ground-truth-by-construction monitor: every documented operation of both spec versions compared with the contract (parameters, requiredness, bodies, responses) derived from the generated method signature",
    text="Runtime monitoring of the real CLI on 80 (thorough 800) generated projects x 2 versions, ~850 operations per quick run over >400 distinct signature shapes: parameter lists over all five locations plus context, pointer x location x validator requiredness matrix, wire-name aliases, enums/aliases/query slices, JSON and form bodies, every return shape, custom error types, @Response/@ErrorResponse. Oracle = descriptor-derived contract (DESIGN A.3-A.5) read with our own JSON reader. Exploration only.",
@@ -20,6 +25,16 @@ CHECKS = {
    text="Runtime monitoring of the real CLI on 70 (thorough 600) generated type graphs x 2 versions: self-recursive and acyclic struct graphs over several packages, embedded structs (allOf), enums of eight basic kinds incl. '='-style, aliases, nested slices, maps, time/bytes/any, unexported and json:\"-\" fields, decoy constants and unreachable decoy types, usage-site validators on enum-typed fields (the non-interference clause: the shared component must still list all declared constants). Oracle = declarations in the descriptor (DESIGN A.4/A.6). Exploration only.",
    note="Presence of a component for a type reachable only from hidden routes, and of Rfc7807Error when no route returns plain error, is not judged; enum values compared by printed form.",
    ref="DESIGN.md §5 C07"),
+ "C08": dict(
+   technique="independent structural validator (encoding/json only) run over every spec file found after every CLI run, accepted or not, on projects aimed at the rejection boundary",
+   text="Runtime monitoring: 96 (thorough 960) 'fullspec' projects, every second one carrying an edit that makes a valid document impossible or borderline (@Path without {name}, duplicate (name,in), undeclared schemes, missing leading slash, string enums that look like numbers/booleans, same wire name in two locations); whatever file exists at the configured output path after the run is checked for $ref closure, template<->path-parameter bijection, unique (name,in), response descriptions, enum value JSON types and openapi/info/servers/securitySchemes vs the configuration. The oracle deliberately does not use kin-openapi/libopenapi (gleece's own validators). Exploration only.",
+   note="Two known findings (typed enum values, both pinned by e2e assets) are listed in known_findings.json with cause-attested signatures.",
+   ref="DESIGN.md §5 C08"),
+ "C11": dict(
+   technique="differential monitor: the 3.0.0 and 3.1.0 documents of one project normalised to a neutral structure (DESIGN A.7) and deep-compared with a path-addressed diff",
+   text="Runtime monitoring of the real CLI on 80 (thorough 800) projects x 2 versions with validators drawn from every rule either converter understands (22 rule names, applicable to the target type or not) on fields, parameters, bodies and form fields, plus security/deprecation combinations; paths, verbs, operationIds, tags, parameters, bodies, response codes, $ref targets, security and component schemas incl. numeric/length bounds and enum sets are compared after dialect translation. Exploration only.",
+   note="At most one rule per bound is generated (3.0 has one maximum/minimum slot). Two known findings (3.0-only default response, zero-valued length bounds dropped by 3.1) are cause-attested in known_findings.json.",
+   ref="DESIGN.md §5 C11"),
  "C15": dict(
    technique="reference-model monitor: brute-force overlap oracle over every route list (bounded-exhaustive + random, permutation re-runs) observing paths.FindConflicts in-process",
    text="Runtime monitoring of the real FindConflicts: every ordered list of <=3 (thorough <=4) entries over 42 route entries plus thousands of large duplicate-heavy random lists are executed and each reported conflict / each unflagged entry is judged by a 12-line overlap model transcribed from the statement; entry identity is tracked by pointer so duplicates are distinguishable. Exploration, not proof: the verdict covers the enumerated and sampled lists only.",
